@@ -156,7 +156,7 @@ def plan(tier, seed):
         shards = 1 if n < 3 else (nshards if n == 3 else nshards * 4)
         for i in range(shards):
             tasks.append({"engine": "enum", "n": n, "index": i, "count": shards, "maxlen": None if n <= 3 else 2, "routes": None if n <= 3 else ["parent"]})
-    examples = 40 if tier == "quick" else 500
+    examples = 80 if tier == "quick" else 500
     for i in range(nshards):
         tasks.append({"engine": "hyp", "examples": examples, "seed": seed * 1000 + i})
     return tasks
